@@ -59,3 +59,284 @@ pub mod ruv {
         }
     }
 }
+
+/// C02: build the crate-private-keyed `IdxMeta` (attribute, index type, slope) for `Filter::resolve`.
+pub mod c02 {
+    use crate::be::{IdxKey, IdxMeta};
+    use crate::prelude::*;
+
+    pub fn idxmeta(keys: &[(Attribute, IndexType, u8)]) -> IdxMeta {
+        IdxMeta::new(
+            keys.iter()
+                .map(|(attr, itype, slope)| (IdxKey::new(attr.clone(), *itype), *slope))
+                .collect(),
+        )
+    }
+}
+
+/// C01: an isolated in-memory `Backend` whose index layout can be rewritten, plus flattened views
+/// of `filter2idl`, the index tables and the index metadata.
+pub mod c01 {
+    use crate::be::{
+        Backend, BackendConfig, BackendReadTransaction, BackendTransaction,
+        BackendWriteTransaction, IdList, IdxKey,
+    };
+    use crate::entry::{Entry, EntryInit, EntryNew};
+    use crate::filter::{Filter, FilterValidResolved};
+    use crate::prelude::*;
+    use crate::schema::SchemaTransaction;
+    use kanidm_proto::internal::FsType;
+    use std::time::Duration;
+
+    fn keys(layout: &[(Attribute, IndexType)]) -> Vec<IdxKey> {
+        layout
+            .iter()
+            .map(|(a, t)| IdxKey::new(a.clone(), *t))
+            .collect()
+    }
+
+    /// A fresh in-memory backend (no entries, no index tables yet).
+    pub fn backend_new(layout: &[(Attribute, IndexType)]) -> Result<Backend, OperationError> {
+        let cfg = BackendConfig::new(None, 1, FsType::Generic, None);
+        Backend::new(cfg, keys(layout), false)
+    }
+
+    /// `update_idxmeta(layout)`; with `reindex` also drop and rebuild every index table.
+    pub fn set_layout(
+        be: &mut BackendWriteTransaction<'_>,
+        layout: &[(Attribute, IndexType)],
+        reindex: bool,
+    ) -> Result<(), OperationError> {
+        be.update_idxmeta(keys(layout))?;
+        if reindex {
+            be.reindex(false)?;
+        }
+        Ok(())
+    }
+
+    /// The production entry path `assign_cid -> validate -> seal -> Backend::create`; returns the
+    /// ids the backend assigned, in input order.
+    pub fn create(
+        be: &mut BackendWriteTransaction<'_>,
+        schema: &dyn SchemaTransaction,
+        entries: Vec<Entry<EntryInit, EntryNew>>,
+        ts_secs: u64,
+    ) -> Result<Vec<u64>, String> {
+        let cid = Cid::new(
+            uuid::uuid!("00000000-0000-0000-0000-00000000c001"),
+            Duration::from_secs(ts_secs),
+        );
+        let mut sealed = Vec::with_capacity(entries.len());
+        for e in entries {
+            let v = e
+                .assign_cid(cid.clone(), schema)
+                .validate(schema)
+                .map_err(|e| format!("{e:?}"))?;
+            sealed.push(v.seal(schema));
+        }
+        be.create(&cid, sealed)
+            .map(|c| c.iter().map(|e| e.get_id()).collect())
+            .map_err(|e| format!("{e:?}"))
+    }
+
+    /// `filter2idl` with an explicit threshold: (AllIds|Partial|PartialThreshold|Indexed, ids).
+    pub fn filter2idl<T: BackendTransaction>(
+        be: &mut T,
+        filt: &Filter<FilterValidResolved>,
+        thres: usize,
+    ) -> Result<(&'static str, Vec<u64>), OperationError> {
+        let (idl, _plan) = be.filter2idl(filt.to_inner(), thres)?;
+        Ok(match idl {
+            IdList::AllIds => ("AllIds", Vec::new()),
+            IdList::Partial(s) => ("Partial", (&s).into_iter().collect()),
+            IdList::PartialThreshold(s) => ("PartialThreshold", (&s).into_iter().collect()),
+            IdList::Indexed(s) => ("Indexed", (&s).into_iter().collect()),
+        })
+    }
+
+    /// Every index table that exists: (table name, [(key, ids)]).
+    #[allow(clippy::type_complexity)]
+    pub fn dump_indexes(
+        be: &mut BackendReadTransaction<'_>,
+    ) -> Result<Vec<(String, Vec<(String, Vec<u64>)>)>, OperationError> {
+        let mut out = Vec::new();
+        for name in be.list_indexes()? {
+            let rows = be
+                .list_index_content(&name)?
+                .into_iter()
+                .map(|(k, idl)| (k, (&idl).into_iter().collect()))
+                .collect();
+            out.push((name, rows));
+        }
+        Ok(out)
+    }
+
+    /// The index metadata a transaction resolves filters against.
+    pub fn idxmeta_dump<T: BackendTransaction>(be: &T) -> Vec<(Attribute, IndexType, u8)> {
+        be.get_idxmeta_ref()
+            .idxkeys
+            .iter()
+            .map(|(k, s)| (k.attr.clone(), k.itype, *s))
+            .collect()
+    }
+}
+
+/// C23: identities that only crate-private constructors can build.
+pub mod c23 {
+    use crate::prelude::*;
+
+    /// The `n`-th internal identity; only `0` (the internal system identity) exists.
+    pub fn ident_internal(n: usize) -> Option<Identity> {
+        (n == 0).then(Identity::from_internal)
+    }
+
+    /// The crate-private internal identities by role name
+    /// (`system`, `migration`, `accountRequest`, `messageQueue`).
+    pub fn ident_role(role: &str) -> Option<Identity> {
+        match role {
+            "system" => Some(Identity::from_internal()),
+            "migration" => Some(Identity::migration()),
+            "accountRequest" => Some(Identity::account_request()),
+            "messageQueue" => Some(Identity::message_queue()),
+            _ => None,
+        }
+    }
+
+    /// An identity of origin `IdentType::Synch(uuid)` as
+    /// `validate_sync_client_auth_info_to_ident` builds it, with the given scope.
+    pub fn ident_synch(uuid: Uuid, scope: AccessScope) -> Identity {
+        Identity::new(
+            IdentType::Synch(uuid),
+            Source::Internal,
+            UUID_INTERNAL_SESSION_ID,
+            scope,
+            crate::be::Limits::unlimited(),
+            None,
+        )
+    }
+}
+
+/// C27: primary credentials for harness accounts (password, generated password, +TOTP, +backup codes).
+pub mod c27 {
+    use crate::credential::totp::Totp;
+    use crate::credential::{BackupCodes, Credential};
+    use crate::prelude::*;
+    use kanidm_lib_crypto::CryptoPolicy;
+    use time::OffsetDateTime;
+
+    pub fn cred_password(cleartext: &str, generated: bool) -> Result<Credential, OperationError> {
+        let policy = CryptoPolicy::minimum();
+        if generated {
+            Credential::new_generatedpassword_only(&policy, cleartext, OffsetDateTime::UNIX_EPOCH)
+        } else {
+            Credential::new_password_only(&policy, cleartext, OffsetDateTime::UNIX_EPOCH)
+        }
+    }
+
+    pub fn cred_append_totp(cred: &Credential, label: &str, totp: Totp) -> Credential {
+        cred.append_totp(label.to_string(), totp, OffsetDateTime::UNIX_EPOCH)
+    }
+
+    pub fn cred_set_backup_codes(
+        cred: &Credential,
+        codes: &[&str],
+    ) -> Result<Credential, OperationError> {
+        cred.update_backup_code(
+            BackupCodes::new(codes.iter().map(|c| c.to_string()).collect()),
+            OffsetDateTime::UNIX_EPOCH,
+        )
+    }
+}
+
+/// C28: the crate-private `CredSoftLock` behind a forwarding wrapper, and the IDM audit channel.
+pub mod c28 {
+    use crate::credential::softlock::CredSoftLock;
+    pub use crate::credential::softlock::CredSoftLockPolicy;
+    use crate::idm::audit::AuditEvent;
+    use crate::idm::server::IdmServerAudit;
+    use std::time::Duration;
+
+    #[derive(Clone)]
+    pub struct SoftLock(CredSoftLock);
+
+    impl SoftLock {
+        pub fn new(policy: CredSoftLockPolicy) -> Self {
+            SoftLock(CredSoftLock::new(policy))
+        }
+
+        pub fn apply_time_step(&mut self, ct: Duration, expire_at: Option<Duration>) {
+            self.0.apply_time_step(ct, expire_at)
+        }
+
+        pub fn record_failure(&mut self, ct: Duration) {
+            self.0.record_failure(ct)
+        }
+
+        pub fn is_valid(&self) -> bool {
+            self.0.is_valid()
+        }
+
+        /// `{:?}` of the wrapped `CredSoftLock` (its derived `Debug`).
+        pub fn debug(&self) -> String {
+            format!("{:?}", self.0)
+        }
+    }
+
+    /// Empties the audit queue; returns how many `AuthenticationDenied` events were in it.
+    pub fn audit_drain_denied(audit: &mut IdmServerAudit) -> usize {
+        let mut denied = 0;
+        while let Ok(ev) = audit.audit_rx.try_recv() {
+            match ev {
+                AuditEvent::AuthenticationDenied { .. } => denied += 1,
+            }
+        }
+        denied
+    }
+}
+
+/// C35: account policy resolution (`Option<AccountPolicy>::from(entry)` + `ResolvedAccountPolicy::fold_from`).
+pub mod c35 {
+    use crate::entry::EntrySealedCommitted;
+    use crate::idm::accountpolicy::{AccountPolicy, ResolvedAccountPolicy};
+    pub use webauthn_rs::prelude::{AttestationCaList, AttestationCaListBuilder};
+
+    /// The fields of the crate-private `ResolvedAccountPolicy`, read through its getters.
+    #[derive(Clone, Debug)]
+    pub struct Resolved {
+        pub privilege_expiry: u32,
+        pub authsession_expiry: u32,
+        pub pw_min_length: u32,
+        pub pw_max_length: u32,
+        /// `CredentialType as u16`
+        pub credential_policy: u16,
+        pub webauthn_att_ca_list: Option<AttestationCaList>,
+        pub limit_search_max_filter_test: Option<u64>,
+        pub limit_search_max_results: Option<u64>,
+        pub allow_primary_cred_fallback: Option<bool>,
+    }
+
+    /// Does the entry convert into an `AccountPolicy`?
+    pub fn is_policy(entry: &EntrySealedCommitted) -> bool {
+        Option::<AccountPolicy>::from(entry).is_some()
+    }
+
+    /// Converts every entry (non-policies are skipped) and folds them in the given order.
+    pub fn fold_entries(entries: &[&EntrySealedCommitted]) -> Resolved {
+        let r = ResolvedAccountPolicy::fold_from(
+            entries
+                .iter()
+                .filter_map(|e| Option::<AccountPolicy>::from(*e)),
+        );
+        Resolved {
+            privilege_expiry: r.privilege_expiry(),
+            authsession_expiry: r.authsession_expiry(),
+            pw_min_length: r.pw_min_length(),
+            pw_max_length: r.pw_max_length(),
+            credential_policy: r.credential_policy() as u16,
+            webauthn_att_ca_list: r.webauthn_attestation_ca_list().cloned(),
+            limit_search_max_filter_test: r.limit_search_max_filter_test(),
+            limit_search_max_results: r.limit_search_max_results(),
+            allow_primary_cred_fallback: r.allow_primary_cred_fallback(),
+        }
+    }
+}
